@@ -1,0 +1,13 @@
+//go:build verif
+
+package deletionmanager
+
+import "context"
+
+// VerifRunDeleter runs one pass of the deletion worker of a DeletionManager created by New()
+// and initialised by Init (its background loop does not have to be running). It exists only
+// under the `verif` build tag so that a verification harness can schedule the worker
+// deterministically.
+func VerifRunDeleter(ctx context.Context, dm DeletionManager) {
+	dm.(*deletionManager).deleter.Delete(ctx)
+}
